@@ -159,6 +159,53 @@ class FFi(Fam):
 MODELLED = {"tup": FTup(), "kll": FKll(), "fi": FFi()}
 
 
+class FMon(Fam):
+    """a monitored-only family: `newf(rng, tier) -> cfg words`, `updf(rng, st) -> arg words`"""
+
+    def __init__(self, name, newf, updf, merge=False, serde=True, trim=False, reset=False, query_mutates=False, universe=(20, 200)):
+        self.name, self.newf, self.updf = name, newf, updf
+        self.merge, self.serde, self.trim, self.reset = merge, serde, trim, reset
+        self.query_mutates_image = query_mutates
+        self.universe = universe
+
+    def new(self, rng, tier, oid):
+        return "new %s %d %s" % (self.name, oid, self.newf(rng, tier)), dict(universe=rng.choice(self.universe))
+
+    def upd(self, rng, oid, st):
+        return "upd %d %s" % (oid, self.updf(rng, st))
+
+
+def _u(rng, st):
+    return "%d %d" % (rng.randrange(st["universe"]), rng.randrange(1, 9))
+
+
+MONITORED = [
+    FMon("theta", lambda r, t: "%d %d %s" % (r.choice([5, 5, 6]), r.randrange(4), r.choice(["3f800000", "3f000000"])), _u, serde=False, trim=True, reset=True),
+    FMon("cth", lambda r, t: "%d %d %d" % (r.choice([0, 1, 5, 40, 100]), r.choice([5, 6]), r.randrange(2)), _u),
+    FMon("thu", lambda r, t: "%d" % r.choice([5, 6]), lambda r, st: "%d %d" % (r.randrange(500), r.randrange(1, 40)), serde=False, reset=True),
+    FMon("ctup", lambda r, t: "%d %d %d" % (r.choice([0, 1, 5, 40, 100]), r.choice([5, 6]), r.randrange(2)), _u),
+    FMon("tupu", lambda r, t: "%d" % r.choice([5, 6]), lambda r, st: "%d %d" % (r.randrange(500), r.randrange(1, 40)), serde=False, reset=True),
+    FMon("kllstr", lambda r, t: "%d" % r.choice([8, 9, 12, 16]), _u, merge=True, query_mutates=True),
+    FMon("req", lambda r, t: "%d %d" % (r.choice([4, 6, 8]), r.randrange(2)), _u, merge=True, query_mutates=True),
+    FMon("reqstr", lambda r, t: "%d %d" % (r.choice([4, 6, 8]), r.randrange(2)), _u, merge=True, query_mutates=True),
+    FMon("quant", lambda r, t: "%d" % r.choice([2, 4, 8, 16]), _u, merge=True, query_mutates=True),
+    FMon("quantstr", lambda r, t: "%d" % r.choice([2, 4, 8, 16]), _u, merge=True, query_mutates=True),
+    FMon("fistr", lambda r, t: (lambda m: "%d %d" % (m, r.randrange(3, m + 1)))(r.choice([3, 3, 4, 5])), _u, merge=True, universe=(6, 12, 40, 200)),
+    FMon("varopt", lambda r, t: "%d" % r.choice([4, 8, 16]), _u, reset=True),
+    FMon("vou", lambda r, t: "%d" % r.choice([4, 8, 16]), lambda r, st: "%d %d" % (r.randrange(500), r.randrange(1, 30)), reset=True),
+    FMon("ebpps", lambda r, t: "%d" % r.choice([3, 6, 12]), _u, merge=True, reset=True),
+    FMon("hll", lambda r, t: "%d %d %d" % (r.choice([4, 5, 7, 8]), r.randrange(3), r.randrange(2)), lambda r, st: "%d %d" % (r.randrange(100), r.choice([1, 1, 3, 40, 300])), reset=True),
+    FMon("hllu", lambda r, t: "%d" % r.choice([5, 6, 8]), lambda r, st: "%d %d" % (r.randrange(100), r.choice([1, 5, 40, 300])), serde=False, reset=True),
+    FMon("cpc", lambda r, t: "%d" % r.choice([4, 5, 7]), lambda r, st: "%d %d" % (r.randrange(100), r.choice([1, 1, 3, 40, 300])), ),
+    FMon("cpcu", lambda r, t: "%d" % r.choice([5, 6, 7]), lambda r, st: "%d %d" % (r.randrange(100), r.choice([1, 5, 40, 300])), serde=False),
+    FMon("bloom", lambda r, t: "%d %d" % (r.choice([64, 256, 1000]), r.choice([1, 3, 5])), _u, merge=True, trim=True, reset=True),
+    FMon("cm", lambda r, t: "%d %d" % (r.choice([1, 3, 5]), r.choice([3, 16, 64])), _u, merge=True),
+    FMon("td", lambda r, t: "%d" % r.choice([10, 20, 50]), _u, merge=True),
+    FMon("dens", lambda r, t: "%d %d" % (r.choice([2, 4, 8]), r.choice([1, 2, 3])), _u, merge=True),
+]
+MONITORED_NAMES = [f.name for f in MONITORED]
+
+
 def gen_history(rng, tier, fams, nops):
     """one lifecycle history over objects of the given families (>= 3 live objects most of the time)."""
     h = ["alloc " + rng.choice(["shared", "shared", "distinct"])]
@@ -412,10 +459,19 @@ class C19(Spec):
                    "std::nth_element/std::sort are modelled as 'sorts the range' (any permutation has the same lifetime states)"]
 
     def parts(self):
-        return [LifePart("tup", [MODELLED["tup"]], 24, 160),
-                LifePart("kll", [MODELLED["kll"]], 24, 160),
-                LifePart("fi", [MODELLED["fi"]], 24, 160),
-                LifePart("mixed", list(MODELLED.values()), 16, 120)]
+        ps = [LifePart("tup", [MODELLED["tup"]], 24, 160),
+              LifePart("kll", [MODELLED["kll"]], 24, 160),
+              LifePart("fi", [MODELLED["fi"]], 24, 160),
+              LifePart("mixed", list(MODELLED.values()), 16, 120)]
+        for f in MONITORED:
+            ps.append(LifePart("mon:" + f.name, [f], 5, 30, compare_model=False))
+        ps.append(LifePart("mon:all", MONITORED + list(MODELLED.values()), 6, 40, compare_model=False))
+        return ps
+
+    def extra_stages(self, rep, tier, rng, broken):
+        rep.cov["program_model_and_contract_proofs"] = ["theta_update_sketch_base (update_tuple_sketch)"]
+        rep.cov["program_model_tied_by_correspondence_contracts_pending"] = ["kll_sketch + kll_helper", "reverse_purge_hash_map + frequent_items_sketch"]
+        rep.cov["modelled_not_verified_monitored_only"] = MONITORED_NAMES
 
 
 SPEC = C19()
